@@ -106,15 +106,49 @@ def prove_fast(ob):
     return v, s.to_smt2()
 
 
+def race(smt2, timeout_s):
+    """run cvc5 (--strings-exp) and z3-new on the same query; first definitive answer wins,
+    the other process is killed.  -> (cvc5_answer, z3new_answer) with 'unknown' for the loser"""
+    text_c = '(set-logic ALL)\n' + '\n'.join(l for l in smt2.splitlines() if not l.startswith('(set-info'))
+    files, procs = [], {}
+    try:
+        for name, text, cmd in (('cvc5', text_c, ['/usr/bin/cvc5', '--strings-exp', f'--tlimit={timeout_s * 1000}']),
+                                ('z3-new', smt2, ['z3-new', f'-T:{timeout_s}'])):
+            f = tempfile.NamedTemporaryFile('w', suffix='.smt2', delete=False)
+            f.write(text)
+            f.close()
+            files.append(f.name)
+            procs[name] = subprocess.Popen(cmd + [f.name], stdout=subprocess.PIPE, stderr=subprocess.DEVNULL, text=True)
+        ans = {'cvc5': None, 'z3-new': None}
+        deadline = time.time() + timeout_s + 5
+        while time.time() < deadline and any(a is None for a in ans.values()):
+            for name, pr in procs.items():
+                if ans[name] is None and pr.poll() is not None:
+                    out = (pr.stdout.read() or '').strip().splitlines()
+                    ans[name] = out[0] if out and out[0] in ('sat', 'unsat', 'unknown', 'timeout') else 'unknown'
+            if any(a in ('sat', 'unsat') for a in ans.values()):
+                break
+            time.sleep(0.05)
+        for name, pr in procs.items():
+            if pr.poll() is None:
+                pr.kill()
+                pr.wait()
+            if ans[name] is None:
+                ans[name] = 'unknown'
+        return ans['cvc5'], ans['z3-new']
+    finally:
+        for f in files:
+            try:
+                os.unlink(f)
+            except OSError:
+                pass
+
+
 def prove_slow(v, smt2, timeout_s):
-    """second stage for queries the fast pass left open: cvc5 (strings) and z3-new CLIs
-    concurrently; the caller runs several of these in a thread pool."""
-    from concurrent.futures import ThreadPoolExecutor
+    """second stage for queries the fast pass left open: cvc5 (strings) and z3-new CLIs race;
+    the caller runs several of these in a thread pool."""
     t0 = time.time()
-    with ThreadPoolExecutor(2) as ex:
-        fc = ex.submit(run_cvc5, smt2, timeout_s)
-        fz = ex.submit(run_z3new, smt2, timeout_s)
-        c, zn = fc.result(), fz.result()
+    c, zn = race(smt2, timeout_s)
     if c == 'unsat' or zn == 'unsat':
         if 'sat' in (c, zn):
             v.status, v.reason = 'undecided', f'solver disagreement cvc5={c} z3-new={zn}'
